@@ -503,6 +503,23 @@ def run_crash_case(case: dict) -> dict:
                     return res
                 SqliteEventStoreMixin.append_batch = patched
                 restore.append(lambda: setattr(SqliteEventStoreMixin, "append_batch", orig))
+            elif fault[0] == "late":
+                # the n-th completion transaction fails AFTER the event was appended and the recorder returned: when the
+                # handler marks the message processed (the last statement before COMMIT).  Everything rolls back and the
+                # message is delivered again in the same process: the retry must record its completion event again.
+                orig_mp = AtomicTransaction.mark_message_processed
+
+                def patched_mp(self, *a, **kw):
+                    if cur["handler"] in ("CompleteTask", "CompleteStage") and not injected["done"]:
+                        if injected["count"] == fault[1]:
+                            injected["done"] = True
+                            injected["at_handler"] = cur["handler"]
+                            injected["at_index"] = cur["index"]
+                            raise RuntimeError("verif: injected failure after the event append (mark_message_processed)")
+                        injected["count"] += 1
+                    return orig_mp(self, *a, **kw)
+                AtomicTransaction.mark_message_processed = patched_mp
+                restore.append(lambda: setattr(AtomicTransaction, "mark_message_processed", orig_mp))
             else:
                 orig_ss = AtomicTransaction.store_stage
 
@@ -662,6 +679,7 @@ def crash_cases(rng: random.Random, tier: str) -> list[dict]:
             # the same faults with every delivery on a fresh worker thread: each completion's event append is then the
             # first use of that thread's connections (schema / pragma set-up on first use must not end the open transaction)
             add(name=n, spec=fam[n], at=None, fault=("exc", k), thread=True)
+            add(name=n, spec=fam[n], at=None, fault=("late", k))
         for at in range(0, 140 if thorough else 60, 3):
             add(name=n, spec=fam[n], at=at, thread=True)
         for c in (range(1, 20, 2) if thorough else (3, 7, 11)):
